@@ -129,6 +129,6 @@ def handle (j : Json) : Json :=
       let out := match res with
         | .ok r => Json.mkObj [("ok", Json.num r)]
         | .error e => if hasMiss e then Json.mkObj [("miss", errToJson e)] else Json.mkObj [("err", errToJson e)]
-      Json.mkObj [("struct", structToJson t), ("out", out)]
+      Json.mkObj [("struct", structToJson t), ("structs", Json.arr (built.map structToJson).toArray), ("out", out)]
 
 def main : IO Unit := serve handle
